@@ -542,7 +542,8 @@ impl<Key, Filter, Child> HierarchicalFilters<Key, Filter, Child> {
 
     /// Count of childs in container
     pub fn len(&self) -> usize {
-        self.children.len()
+        // Removed childs leave empty slots, which should not be counted
+        self.children.iter().flatten().count()
     }
 
     /// Clear container
